@@ -60,7 +60,20 @@ impl Certificate {
 		format!("{}_{}", self.crt_name, self.key_type)
 	}
 
-	pub fn get_identifier_from_str(&self, identifier: &str) -> Result<Identifier, Error> {
+	pub fn get_identifier_from_str(
+		&self,
+		identifier: &str,
+		wildcard: bool,
+	) -> Result<Identifier, Error> {
+		// A domain and its wildcard are two distinct identifiers which may use different challenges
+		let exact = if wildcard {
+			format!("*.{identifier}")
+		} else {
+			identifier.to_string()
+		};
+		if let Some(d) = self.identifiers.iter().find(|d| d.value == exact) {
+			return Ok(d.clone());
+		}
 		let identifier = identifier.to_string();
 		for d in self.identifiers.iter() {
 			let val = match d.id_type {
@@ -146,8 +159,9 @@ impl Certificate {
 		proof: &str,
 		raw_proof: Option<String>,
 		identifier: &str,
+		wildcard: bool,
 	) -> Result<(ChallengeHookData, HookType), Error> {
-		let identifier = self.get_identifier_from_str(identifier)?;
+		let identifier = self.get_identifier_from_str(identifier, wildcard)?;
 		let mut hook_data = ChallengeHookData {
 			challenge: identifier.challenge.to_string(),
 			identifier: identifier.value.to_owned(),
